@@ -23,7 +23,10 @@ def hv(ident):
     return z3.Int("hexval!" + ident)
 
 
-@scenario("validaddr:observe", VO, P, inlined=["ValidAddrRange.__init__/is_in_range", "HexType.__init__"],
+PKEEP = ["C18", "C07", "C08", "C10"]      # the observer never drops or re-addresses an instruction: the stream stays the input's sequence
+
+
+@scenario("validaddr:observe", VO, PKEEP, inlined=["ValidAddrRange.__init__/is_in_range", "HexType.__init__"],
           doc="tagging decision over symbolic hexadecimal bounds and targets")
 def observe():
     ensure()
@@ -58,16 +61,20 @@ def observe():
                     for i, p in enumerate(run.paths):
                         base = f"observe_instruction:{sid}:p{i}"
                         if p.kind != "ret":
-                            obs.append(simple_ob(base + ":EXC", VO, "EXC", "no exception", False, P, detail=repr(p.value), witness=sid))
+                            obs.append(simple_ob(base + ":EXC", VO, "EXC", "no exception", False, PKEEP, detail=repr(p.value), witness=sid))
                             continue
                         res, inst = p.value
+                        if res is None or not isinstance(res, J.gd.Instruction):
+                            obs.append(simple_ob(base + ":POST-keeps", VO, "POST", "the observer answers with an instruction (it never drops one)",
+                                                 False, PKEEP, detail=repr(res), witness=sid))
+                            continue
                         tagged = res is not inst
                         direct = opcat in ("hex", "hex0x", "two")
                         if tagged:
                             okshape = (list(res.operands) == ["valid_addr"] and res.addr is inst.addr and res.mnemonic is inst.mnemonic)
                             obs.append(simple_ob(base + ":POST-shape", VO, "POST",
                                                  "a tagged instruction keeps address and mnemonic, its operand list is ['valid_addr']",
-                                                 okshape, P, detail=repr(res), witness=sid))
+                                                 okshape, PKEEP, detail=repr(res), witness=sid))
                             is_branch = isinstance(mval, str) and (mval.startswith("call") or mval.startswith("j"))
                             obs.append(simple_ob(base + ":POST-only-branches", VO, "POST",
                                                  "only a direct branch (call*/j* with a hexadecimal target, no '*') is ever tagged",
@@ -76,7 +83,7 @@ def observe():
                                              "tagged only if hexval(min) <= hexval(target) <= hexval(max)", p.pc, inrange, P))
                         else:
                             obs.append(simple_ob(base + ":POST-untouched", VO, "POST", "an untagged instruction is returned unchanged (same object, same operands)",
-                                                 res is inst and len(res.operands) == {"none": 0, "two": 2}.get(opcat, 1), P, detail=repr(res), witness=sid))
+                                                 res is inst and len(res.operands) == {"none": 0, "two": 2}.get(opcat, 1), PKEEP, detail=repr(res), witness=sid))
                             if mname in MUST_TAG and direct:
                                 obs.append(z3_ob(base + ":POST-must-tag", VO, "POST",
                                                  f"a direct {mname} is left untagged only if its target is outside [min,max] (both bounds inclusive)",
